@@ -24,6 +24,8 @@ type c04Rev struct {
 	Deleted bool   `json:"deleted,omitempty"`
 }
 
+var c04Pad = strings.Repeat("p", 300)
+
 // at most 3 reports per (monitor, signature): the recorder keeps only the first 50 failures overall
 var c04FailCount = map[string]int{}
 
@@ -449,6 +451,9 @@ func (d *c04Db) run(where string, ops []c04Op) c04DbRun {
 		switch op.Kind {
 		case "push":
 			body := Body{"v": op.Hist[0]}
+			if len(op.Hist[0])%2 == 0 {
+				body["pad"] = c04Pad // > 250 bytes: stored out of line while the revision is a non-winning leaf
+			}
 			if op.Deleted {
 				body[BodyDeleted] = true
 			}
@@ -1218,4 +1223,244 @@ func TestVerifC04(t *testing.T) {
 		db.Close(dctx)
 	}
 	runDb(false, []uint32{50, 50, 3})
+
+	// =========== (5) winning body under CAS retries ===========
+	c04RaceBodies(t, rec, rnd)
+}
+
+// ---- (5) same revisions, one database raced (the promoting write loses its compare-and-swap to a competing
+// write and is retried), one sequential: same winner, same winning body, same body for every live leaf ----
+type c04BodyOp struct {
+	Op    c04Op `json:"op"`
+	Body  int   `json:"body"`
+	Large bool  `json:"large,omitempty"`
+}
+type c04BodyObs struct {
+	Cur     string         `json:"cur"`
+	CurBody int            `json:"cur_body"` // -1: none / tombstone
+	Leaves  map[string]int `json:"leaf_bodies"`
+}
+
+func c04BodyNum(b Body) int {
+	if b == nil {
+		return -1
+	}
+	if s, ok := b["n"].(string); ok {
+		if v, err := strconv.Atoi(s); err == nil {
+			return v
+		}
+	}
+	return -1
+}
+
+func c04RaceBodies(t *testing.T, rec *vRecorder, rnd *vRand) {
+	db, ctx := SetupTestDBWithOptions(t, DatabaseContextOptions{AllowConflicts: base.Ptr(true)})
+	defer db.Close(ctx)
+	col, ctx := GetSingleDatabaseCollectionWithUser(ctx, t, db)
+	fs := &vFaultStore{DataStore: col.dataStore}
+	col.dataStore = fs
+	pad := strings.Repeat("x", 320)
+	docNo := 0
+
+	// apply one request; returns result kind and (for Put) the revision id created
+	apply := func(docid string, o c04BodyOp) (string, string) {
+		body := Body{"n": strconv.Itoa(o.Body)}
+		if o.Large {
+			body["pad"] = pad
+		}
+		if o.Op.Deleted {
+			body[BodyDeleted] = true
+		}
+		var err error
+		var doc *Document
+		newRev := ""
+		if o.Op.Kind == "push" {
+			doc, _, err = col.PutExistingRevWithBody(ctx, docid, body, append([]string{}, o.Op.Hist...), false, ExistingVersionWithUpdateToHLV)
+			if err == nil && doc == nil {
+				return "RCancel", ""
+			}
+		} else {
+			if o.Op.Parent != "" {
+				body[BodyRev] = o.Op.Parent
+			}
+			newRev, _, err = col.Put(ctx, docid, body)
+		}
+		if err == nil {
+			return "ROk", newRev
+		}
+		if st, _ := base.ErrorAsHTTPStatus(err); st == 409 {
+			return "RConflict", ""
+		}
+		return "RErr", ""
+	}
+	observe := func(docid string) c04BodyObs {
+		o := c04BodyObs{CurBody: -1, Leaves: map[string]int{}}
+		db.FlushRevisionCacheForTest()
+		doc, err := col.GetDocument(ctx, docid, DocUnmarshalAll)
+		if err != nil || doc == nil {
+			return o
+		}
+		o.Cur = doc.GetRevTreeID()
+		if !doc.IsDeleted() {
+			o.CurBody = c04BodyNum(doc.Body(ctx))
+		}
+		for _, l := range c04LeafRevs(doc.History) {
+			if l.Deleted {
+				continue
+			}
+			b, err := col.Get1xRevBody(ctx, docid, l.ID, false, nil)
+			if err != nil {
+				o.Leaves[l.ID] = -1
+			} else {
+				o.Leaves[l.ID] = c04BodyNum(b)
+			}
+		}
+		return o
+	}
+	coqCase := func(steps []c04BodyOp, newRevs []string, o c04BodyObs) string {
+		parts := make([]string, len(steps))
+		for i, s := range steps {
+			var opT string
+			if s.Op.Kind == "push" {
+				opT = "OPush " + c04IDsT(s.Op.Hist) + " " + cqBool(s.Op.Deleted) + " false"
+			} else {
+				id := "(I 0 [])"
+				if newRevs[i] != "" {
+					id = c04ID(newRevs[i])
+				}
+				opT = "OPut " + c04Opt(s.Op.Parent) + " " + cqBool(s.Op.Deleted) + " " + id
+			}
+			parts[i] = "(" + opT + ", " + cqI(s.Body) + ")"
+		}
+		cb := "None"
+		if o.CurBody >= 0 {
+			cb = "(Some " + cqI(o.CurBody) + ")"
+		}
+		ids := make([]string, 0, len(o.Leaves))
+		for id := range o.Leaves {
+			ids = append(ids, id)
+		}
+		sort.Strings(ids)
+		lb := make([]string, len(ids))
+		for i, id := range ids {
+			v := o.Leaves[id]
+			if v < 0 {
+				v = 999999 // body could not be read: never equal to a body id that was written
+			}
+			lb[i] = "(" + c04ID(id) + ", " + cqI(v) + ")"
+		}
+		return "CBody true " + cqN(uint64(db.RevsLimit)) + " " + cqList(parts) + " " + c04Opt(o.Cur) + " " + cb + " " + cqList(lb)
+	}
+
+	nVar := vBudget(36, 300)
+	for it := 0; it < nVar; it++ {
+		bodyID := 10
+		nb := func() int { bodyID++; return bodyID }
+		// base: root, the winning branch 2-w, the non-winning leaf 2-l (large body => stored out of line), optional further leaves
+		base0 := []c04BodyOp{
+			{Op: c04Op{Kind: "push", Hist: []string{"1-a"}}, Body: nb()},
+			{Op: c04Op{Kind: "push", Hist: []string{"2-w", "1-a"}}, Body: nb(), Large: it%3 == 0},
+			{Op: c04Op{Kind: "push", Hist: []string{"2-l", "1-a"}}, Body: nb(), Large: it%7 != 6},
+		}
+		if it%2 == 1 {
+			base0 = append(base0, c04BodyOp{Op: c04Op{Kind: "push", Hist: []string{"2-k", "1-a"}}, Body: nb(), Large: true})
+		}
+		if it%5 == 4 {
+			base0 = append(base0, c04BodyOp{Op: c04Op{Kind: "push", Hist: []string{"3-w", "2-w", "1-a"}}, Body: nb(), Large: rnd.Bool()})
+		}
+		winner := "2-w"
+		if it%5 == 4 {
+			winner = "3-w"
+		}
+		// competitors: writes that commit between the promoting write's update callback and its compare-and-swap
+		var comps []c04BodyOp
+		switch it % 4 {
+		case 0:
+			comps = []c04BodyOp{{Op: c04Op{Kind: "push", Hist: []string{"2-c", "1-a"}}, Body: nb()}}
+		case 1:
+			comps = []c04BodyOp{{Op: c04Op{Kind: "push", Hist: []string{"2-c", "1-a"}}, Body: nb(), Large: true}}
+		case 2:
+			comps = []c04BodyOp{{Op: c04Op{Kind: "push", Hist: []string{"1-b"}}, Body: nb()}, {Op: c04Op{Kind: "push", Hist: []string{"2-d", "1-b"}}, Body: nb(), Large: true}}
+		case 3: // a child of another non-winning leaf: becomes the winner itself when its generation is higher
+			par := "2-l"
+			if it%2 == 1 {
+				par = "2-k"
+			}
+			comps = []c04BodyOp{{Op: c04Op{Kind: "push", Hist: []string{"3-e", par, "1-a"}}, Body: nb(), Large: rnd.Bool()}}
+		}
+		// the promoting write: tombstone the winning branch
+		var promote c04BodyOp
+		if it%3 == 1 {
+			promote = c04BodyOp{Op: c04Op{Kind: "put", Parent: winner, Deleted: true}, Body: nb()}
+		} else {
+			g, _ := c04Split(winner)
+			promote = c04BodyOp{Op: c04Op{Kind: "push", Hist: append([]string{strconv.Itoa(g+1) + "-t"}, c04Ancestry([]c04Rev{{ID: "1-a"}, {ID: "2-w", Parent: "1-a"}, {ID: "3-w", Parent: "2-w"}}, winner)...), Deleted: true}, Body: nb()}
+		}
+		commitOrder := append(append(append([]c04BodyOp{}, base0...), comps...), promote)
+
+		docNo++
+		raced := fmt.Sprintf("c04-race-%d", docNo)
+		seq := fmt.Sprintf("c04-seq-%d", docNo)
+		racedRevs := make([]string, len(commitOrder))
+		seqRevs := make([]string, len(commitOrder))
+		okAll := true
+		// sequential database: the same revisions, one request after the other
+		for i, o := range commitOrder {
+			res, nr := apply(seq, o)
+			seqRevs[i] = nr
+			if res != "ROk" {
+				okAll = false
+			}
+		}
+		// raced database
+		for i, o := range base0 {
+			res, nr := apply(raced, o)
+			racedRevs[i] = nr
+			if res != "ROk" {
+				okAll = false
+			}
+		}
+		attempts := 0
+		next := 0
+		fs.onAttempt = func(key string, n int, cbErr error) error {
+			if key != raced || cbErr != nil {
+				return nil
+			}
+			attempts = n
+			// one competitor per attempt: the promoting write is retried once per competitor
+			if next < len(comps) {
+				i := next
+				next++
+				res, nr := apply(raced, comps[i])
+				racedRevs[len(base0)+i] = nr
+				if res != "ROk" {
+					okAll = false
+				}
+			}
+			return nil
+		}
+		res, nr := apply(raced, promote)
+		fs.onAttempt = nil
+		racedRevs[len(commitOrder)-1] = nr
+		if res != "ROk" {
+			okAll = false
+		}
+		obsR, obsS := observe(raced), observe(seq)
+		input := map[string]any{"allow_conflicts": true, "requests_in_commit_order": commitOrder,
+			"raced": fmt.Sprintf("the last request ran its update callback %d times; the %d request(s) before it committed between its callback and its compare-and-swap", attempts, len(comps))}
+		nt := attempts > 1
+		rec.Case("raced", "body_seq", coqCase(commitOrder, racedRevs, obsR), map[string]any{"input": input, "observed": obsR}, nt)
+		rec.Case("corpus", "body_seq", coqCase(commitOrder, seqRevs, obsS), map[string]any{"input": input, "observed": obsS}, false)
+		rec.Size(fmt.Sprintf("promote_attempts_%d", attempts))
+		if !okAll {
+			rec.Err("body_seq_request_rejected")
+			continue
+		}
+		if c04Key(obsR) != c04Key(obsS) {
+			c04Fail(rec, "winning_body_order_independent", "winner-body-lost-on-cas-retry", input,
+				fmt.Sprintf("raced database: current=%s body=%d live-leaf bodies=%v; sequential database: current=%s body=%d live-leaf bodies=%v",
+					obsR.Cur, obsR.CurBody, obsR.Leaves, obsS.Cur, obsS.CurBody, obsS.Leaves))
+		}
+	}
+	col.dataStore = fs.DataStore
 }
